@@ -617,6 +617,10 @@ pub fn check_transition<const N: usize>(
         };
         if let Some(v) = added {
             if !m0.present.contains_key(&v) {
+                // "data presence (v_print) right after add()": the vertex is present, so v_print must describe it
+                if let Ok(Err(e)) = guarded(|| g1.v_print(v).map_err(|e| format!("{e:#}"))) {
+                    out.push(Finding::new("add-not-shown-by-v_print", &["C04", "C20"], format!("{} made ν{v} present, but v_print({v}) right afterwards fails: {e}", op.text())));
+                }
                 if has_marker(g1, v) == Some(true) {
                     out.push(Finding::new("add-not-blank", &["C04", "C03"], format!("{} created ν{v} but v_print shows a data marker: {:?}", op.text(), g1.v_print(v).ok())));
                 }
